@@ -205,27 +205,34 @@ func refValidPart(p string) bool {
 type recReq struct {
 	mu      sync.Mutex
 	calls   []string
+	recs    [][3]string // kind, rid, action: the text form is ambiguous when a rid or action contains '|'
 	replies [][]byte
 }
 
 func (r *recReq) Reply(d []byte) { r.replies = append(r.replies, d) }
 func (r *recReq) GetResource(rid string, cb func(*rpc.Resources, error)) {
 	r.calls = append(r.calls, "get|"+rid)
+	r.recs = append(r.recs, [3]string{"get", rid, ""})
 }
 func (r *recReq) SubscribeResource(rid string, cb func(*rpc.Resources, error)) {
 	r.calls = append(r.calls, "subscribe|"+rid)
+	r.recs = append(r.recs, [3]string{"subscribe", rid, ""})
 }
 func (r *recReq) UnsubscribeResource(rid string, count int, cb func(bool)) {
 	r.calls = append(r.calls, fmt.Sprintf("unsubscribe|%s|%d", rid, count))
+	r.recs = append(r.recs, [3]string{"unsubscribe", rid, ""})
 }
 func (r *recReq) CallResource(rid, action string, params interface{}, cb func(interface{}, error)) {
 	r.calls = append(r.calls, "call|"+rid+"|"+action)
+	r.recs = append(r.recs, [3]string{"call", rid, action})
 }
 func (r *recReq) AuthResource(rid, action string, params interface{}, cb func(interface{}, error)) {
 	r.calls = append(r.calls, "auth|"+rid+"|"+action)
+	r.recs = append(r.recs, [3]string{"auth", rid, action})
 }
 func (r *recReq) NewResource(rid string, params interface{}, cb func(interface{}, error)) {
 	r.calls = append(r.calls, "new|"+rid)
+	r.recs = append(r.recs, [3]string{"new", rid, ""})
 }
 func (r *recReq) SetVersion(p string) (string, error) { return "1.2.3", nil }
 func (r *recReq) ProtocolVersion() int                { return 1002003 }
